@@ -33,7 +33,7 @@ def meta(tier):
         f"first {NMEM} member values plus two inputs the member routine rejects, the composite result must be same-as the composite rebuilt by the reference constructor "
         "from unmarshaller(member)(x_i) / marshaller(member)(v_i) obtained independently through the public API; a member rejection must make the composite raise; "
         "structured sources in every documented shape (mapping, list of pairs, one-shot iterator of pairs, JSON text, repr text, foreign instance) must convert alike; "
-        "non-trivial = all member routines accepted; distinct by (T, input, outcome)",
+        "an instance of a subclass that adds a field marshals, under the base's routine, to the base's members only; non-trivial = all member routines accepted; distinct by (T, input, outcome)",
         "bounds": {"term_sets": SETS[tier], "member_inputs": NMEM},
         "assumptions": ["cold state per program", "union members are judged by C08"],
         "exhaustive": True,
